@@ -61,7 +61,15 @@ func c04Log(r *rand.Rand, style int) []Cmd {
 		}
 		switch {
 		case x < 5:
-			p = append(p, Cmd{Args: []string{"SET", pick(r, g.keys), pick(r, g.freeIDs), "STRING", "b" + bin(1+r.Intn(40))}})
+			v := "b" + bin(1+r.Intn(40))
+			if r.Intn(3) == 0 {
+				// a value that holds, byte for byte, complete protocol frames: whoever looks for
+				// command boundaries by content rather than by framing finds some inside it
+				frame := []string{"*1\r\n$4\r\nPING\r\n", "*0\r\n", string(encodeCmd([]string{"SET", "k1", "ghost", "STRING", "boo"})),
+					"*2\r\n$4\r\nDROP\r\n$2\r\nk1\r\n"}[r.Intn(4)]
+				v += frame + bin(r.Intn(12))
+			}
+			p = append(p, Cmd{Args: []string{"SET", pick(r, g.keys), pick(r, g.freeIDs), "STRING", v}})
 		case x < 6 && style == 3:
 			v := "B" + bin(66000+r.Intn(70000))
 			if r.Intn(2) == 0 {
